@@ -19,6 +19,23 @@ func isCtxErrCall(in ssa.Instruction) (*ssa.Call, bool) {
 	return c, strings.HasSuffix(c.Call.Value.Type().String(), "context.Context")
 }
 
+// isCtxPollInstr: ctx.Err(), or ctx.Done() used as a case of a select (non-blocking receive).
+func isCtxPollInstr(in ssa.Instruction) (*ssa.Call, bool) {
+	if c, ok := isCtxErrCall(in); ok {
+		return c, true
+	}
+	c, ok := in.(*ssa.Call)
+	if !ok || !c.Call.IsInvoke() || c.Call.Method.Name() != "Done" || !strings.HasSuffix(c.Call.Value.Type().String(), "context.Context") {
+		return nil, false
+	}
+	for _, ref := range core.Referrers(c) {
+		if _, isSel := ref.(*ssa.Select); isSel {
+			return c, true
+		}
+	}
+	return nil, false
+}
+
 // pollInfo describes one ctx.Err() poll: whether its non-nil branch returns an
 // error that is the context error itself or wraps it with %w.
 type pollInfo struct {
@@ -31,11 +48,116 @@ type pollInfo struct {
 
 func pollsOf(fn *ssa.Function, ep *errProv) []pollInfo {
 	var out []pollInfo
+	// explore the branch taken when the context is finished: it must reach a return of an error derived from the
+	// context's own error, without looping back
+	explore := func(pi *pollInfo, tb *ssa.BasicBlock) map[*ssa.BasicBlock]bool {
+		seen := map[*ssa.BasicBlock]bool{}
+		work := []*ssa.BasicBlock{tb}
+		for len(work) > 0 {
+			x := work[len(work)-1]
+			work = work[:len(work)-1]
+			if seen[x] || len(seen) > 8 {
+				continue
+			}
+			seen[x] = true
+			for _, xi := range x.Instrs {
+				if st, ok := xi.(*ssa.Store); ok && isErrorType(st.Val.Type()) {
+					if _, isFV := st.Addr.(*ssa.FreeVar); isFV {
+						for _, o := range ep.origins(st.Val) {
+							if o.kind == "ctx" {
+								pi.viaVar = true
+							}
+						}
+					}
+				}
+			}
+			if ret, ok := x.Instrs[len(x.Instrs)-1].(*ssa.Return); ok {
+				pi.returns = true
+				if pi.viaVar && len(ret.Results) == 0 {
+					// closure hands the error to its parent through a captured variable
+					for _, pv := range errReturns(outer(fn), ep) {
+						for _, o := range ep.origins(pv) {
+							if o.kind == "ctx" {
+								pi.keeps = true
+							}
+						}
+					}
+				}
+				for _, rv := range ret.Results {
+					if !isErrorType(rv.Type()) {
+						continue
+					}
+					hasCtx := false
+					for _, o := range ep.origins(rv) {
+						if o.kind == "ctx" {
+							hasCtx = true
+						}
+					}
+					if hasCtx {
+						pi.keeps = true
+					} else {
+						pi.drops = true // a return on the cancelled branch whose error is not the context's own
+					}
+				}
+			}
+			work = append(work, x.Succs...)
+		}
+		return seen
+	}
+	// polls written as a non-blocking receive on ctx.Done(): select { case <-ctx.Done(): return …; default: }
+	inDone := map[*ssa.BasicBlock]bool{}
+	for _, b := range fn.Blocks {
+		for _, in := range b.Instrs {
+			sel, ok := in.(*ssa.Select)
+			if !ok {
+				continue
+			}
+			var done *ssa.Call
+			caseIdx := -1
+			for i, st := range sel.States {
+				if c, ok := st.Chan.(*ssa.Call); ok && c.Call.IsInvoke() && c.Call.Method.Name() == "Done" && strings.HasSuffix(c.Call.Value.Type().String(), "context.Context") {
+					done, caseIdx = c, i
+				}
+			}
+			if done == nil {
+				continue
+			}
+			pi := pollInfo{call: done}
+			for _, ref := range core.Referrers(sel) {
+				ex, ok := ref.(*ssa.Extract)
+				if !ok || ex.Index != 0 {
+					continue
+				}
+				for _, r2 := range core.Referrers(ex) {
+					bo, ok := r2.(*ssa.BinOp)
+					if !ok || !(bo.Op == token.EQL || bo.Op == token.NEQ) {
+						continue
+					}
+					k, isC := core.ConstInt(bo.Y)
+					if !isC || int(k) != caseIdx {
+						continue
+					}
+					for _, r3 := range core.Referrers(bo) {
+						if iff, ok := r3.(*ssa.If); ok {
+							tb := iff.Block().Succs[0]
+							if bo.Op == token.NEQ {
+								tb = iff.Block().Succs[1]
+							}
+							for x := range explore(&pi, tb) {
+								inDone[x] = true
+							}
+						}
+					}
+				}
+			}
+			out = append(out, pi)
+		}
+	}
 	for _, b := range fn.Blocks {
 		for _, in := range b.Instrs {
 			c, ok := isCtxErrCall(in)
-			if !ok {
-				continue
+			if !ok || inDone[b] {
+				continue // (an Err() call on the taken branch of a Done poll is that poll's way of naming the cause)
 			}
 			pi := pollInfo{call: c}
 			// find `if err != nil` on the result
@@ -53,58 +175,7 @@ func pollsOf(fn *ssa.Function, ep *errProv) []pollInfo {
 					if bo.Op == token.EQL {
 						tb = iff.Block().Succs[1]
 					}
-					// the branch must reach a return of an error derived from c, without looping back
-					seen := map[*ssa.BasicBlock]bool{}
-					work := []*ssa.BasicBlock{tb}
-					for len(work) > 0 {
-						x := work[len(work)-1]
-						work = work[:len(work)-1]
-						if seen[x] || len(seen) > 8 {
-							continue
-						}
-						seen[x] = true
-						for _, xi := range x.Instrs {
-							if st, ok := xi.(*ssa.Store); ok && isErrorType(st.Val.Type()) {
-								if _, isFV := st.Addr.(*ssa.FreeVar); isFV {
-									for _, o := range ep.origins(st.Val) {
-										if o.kind == "ctx" {
-											pi.viaVar = true
-										}
-									}
-								}
-							}
-						}
-						if ret, ok := x.Instrs[len(x.Instrs)-1].(*ssa.Return); ok {
-							pi.returns = true
-							if pi.viaVar && len(ret.Results) == 0 {
-								// closure hands the error to its parent through a captured variable
-								for _, pv := range errReturns(outer(fn), ep) {
-									for _, o := range ep.origins(pv) {
-										if o.kind == "ctx" {
-											pi.keeps = true
-										}
-									}
-								}
-							}
-							for _, rv := range ret.Results {
-								if !isErrorType(rv.Type()) {
-									continue
-								}
-								hasCtx := false
-								for _, o := range ep.origins(rv) {
-									if o.kind == "ctx" {
-										hasCtx = true
-									}
-								}
-								if hasCtx {
-									pi.keeps = true
-								} else {
-									pi.drops = true // a return on the cancelled branch whose error is not the context's own
-								}
-							}
-						}
-						work = append(work, x.Succs...)
-					}
+					explore(&pi, tb)
 				}
 			}
 			out = append(out, pi)
@@ -167,6 +238,8 @@ func runC11(c *Ctx) {
 	r.Floor("ctx-chain", n, 10, "rewrap sites on context-error paths")
 	r.Extra("functions_that_may_return_a_context_error", len(ctxErr))
 	c11Residue(c, p)
+	r.Rule("cause-attached", "the builders through which the parser re-wraps a cancellation error (WithCause, WrapError in pkg/errors) attach their error argument on every path on which it is not nil, so errors.Is(err, context.Canceled / DeadlineExceeded) holds through every wrapper")
+	r.Floor("cause-attached", c13CauseAttached(c, p, "cause-attached"), 2, "builders of pkg/errors that take a cause")
 	c11PollInLoops(c, p)
 	c11NotSwallowed(c, p, ctxErr, c11SwallowAudited)
 }
@@ -196,7 +269,7 @@ func c11Loops(c *Ctx, p *core.Prog, ep *errProv) {
 		if stmtCall != nil {
 			for _, b := range fn.Blocks {
 				for _, in := range b.Instrs {
-					if pc, isPoll := isCtxErrCall(in); isPoll && inLoop(b) && b.Dominates(stmtCall.Block()) {
+					if pc, isPoll := isCtxPollInstr(in); isPoll && inLoop(b) && b.Dominates(stmtCall.Block()) {
 						ok = true
 						pos = pc.Pos()
 					}
@@ -245,7 +318,7 @@ func c11Loops(c *Ctx, p *core.Prog, ep *errProv) {
 			}
 			for _, b := range sf.Blocks {
 				for _, in := range b.Instrs {
-					pc, isPoll := isCtxErrCall(in)
+					pc, isPoll := isCtxPollInstr(in)
 					if !isPoll || !inLoop(b) {
 						continue
 					}
